@@ -138,7 +138,7 @@ func (c *Ctx) initFactEngine() {
 	c.setupClassInvariants()
 	c.establishSlotInvariants(c.prop == "C01")
 	c.loadAssumptions()
-	c.classInvRules(c.prop == "C01")
+	c.classInvRules(c.prop == "C01" || c.prop == "C05")
 }
 
 func runC01(c *Ctx) {
@@ -159,6 +159,7 @@ func runC01(c *Ctx) {
 	// ---------------- other panic sources
 	c.otherPanics(fns)
 	c.boxedDictInvariant(fns)
+	c.compareRule(fns)
 	// ---------------- recursion and loops
 	c.recursionAndLoops(fns, reach)
 }
